@@ -119,6 +119,10 @@ def schedule_fn(desc, p_f, p_i):
     return lambda t: lv[np.minimum((t / T_END * nseg).astype(int), nseg - 1)]
 
 
+def sched_label(desc):
+    return desc["kind"] if desc["kind"] != "random" else "random:%d" % desc["seed"]
+
+
 def one_run(inp):
     from bluebonnet.flow import SinglePhaseReservoir
 
@@ -149,7 +153,7 @@ def one_run(inp):
 def run_checks(inp, r):
     """per-run clauses -> list of (clause, key, ok, info)"""
     out = []
-    rk = (inp["table"], inp["ratio"], inp["schedule"]["kind"], inp["nx"])
+    rk = (inp["table"], inp["ratio"], sched_label(inp["schedule"]), inp["nx"])
 
     def add(clause, sub, ok, observed, required):
         out.append((clause, rk + (sub,), bool(ok), {"input": dict(inp, clause=clause, sub=sub), "observed": observed, "required": required}))
@@ -176,7 +180,7 @@ def ladder_checks(cfg, rungs, gaps, ceiling, delta):
     out = []
     for n, (nx, nt) in enumerate(rungs):
         inp = dict(cfg, nx=nx, nt=nt, ladder=[list(x) for x in rungs], clause="rf.modes_agree")
-        key = (cfg["table"], cfg["ratio"], cfg["schedule"]["kind"], nx)
+        key = (cfg["table"], cfg["ratio"], sched_label(cfg["schedule"]), nx)
         obs = {"gap": gaps[n], "nx*gap/ceiling": nx * gaps[n] / ceiling, "ceiling": ceiling, "table_inconsistency_delta": delta, "ladder_gaps": gaps}
         out.append(("rf.modes_agree", key + ("bound",), bool(np.isfinite(gaps[n]) and gaps[n] <= C3 * ceiling / nx + delta),
                     {"input": dict(inp, sub="bound"), "observed": obs, "required": "max_t |rf_flux - rf_density| <= %g*ceiling/nx + delta" % C3}))
@@ -193,7 +197,7 @@ def evaluate_config(cfg, rungs):
         try:
             r = one_run(inp)
         except Exception as e:
-            records.append(("rf.start_zero", (cfg["table"], cfg["ratio"], cfg["schedule"]["kind"], nx, "raised"), False,
+            records.append(("rf.start_zero", (cfg["table"], cfg["ratio"], sched_label(cfg["schedule"]), nx, "raised"), False,
                             {"input": dict(inp, clause="rf.start_zero", sub="raised"), "observed": "%s: %s" % (type(e).__name__, e), "required": "a result"}))
             gaps.append(float("inf"))
             continue
